@@ -17,6 +17,7 @@ CallsAt(step) ==
   \cup {[op |-> "select_from", q |-> Sel(k)] : k \in 0..3}
   \cup {[op |-> "or_default_values"], [op |-> "or_default_values_many", n |-> 2]}
   \cup {[op |-> "values_from_panic", rows |-> <<Row(step, 1, a), Row(step, 2, b)>>] : a \in 1..2, b \in 1..2}
+  \cup {[op |-> "values_from_panic", rows |-> <<>>], [op |-> "values_from_panic", rows |-> <<Row(step, 1, 0)>>]}
 
 VARIABLES st, hist, last
 vars == <<st, hist, last>>
